@@ -498,6 +498,7 @@ func runC11(c *Ctx) {
 	// servers older than 5.5.0: the close half closes the streams one by one
 	runLegacy(c, []string{"rebalance"}, c.Pick(4, 8), c.Pick(40, 120))
 	runLegacySignals(c)
+	runC11Extra(c)
 	// the whole client against the simulated node (real gocbcore agents; the node answers every CLOSE_STREAM and then sends the
 	// end of that stream): rebalance cycles, then documents and Close() as in C13
 	nw := c.Pick(4, 16)
